@@ -170,8 +170,8 @@ def _tracee_cpu(strace_pid):
     kids = ent[0] if ent else None
     if ent:
         ent[1] += 1
-    # children: the `cat` of the log pipe and the tracee; re-scan until both are there, then now and then
-    if not kids or len(kids) < 2 or ent[1] % 10 == 0:
+    # re-scan until the tracee is there, then now and then
+    if not kids or ent[1] % 10 == 0:
         kids = []
         for d in os.listdir("/proc"):
             if d.isdigit():
@@ -187,6 +187,8 @@ def _tracee_cpu(strace_pid):
     for k in kids:
         try:
             f = _stat_fields(k)
+            if int(f[1]) != strace_pid:      # the pid was recycled
+                continue
             total += (int(f[11]) + int(f[12])) / _TICK
         except (OSError, ValueError, IndexError):
             pass
@@ -197,10 +199,9 @@ def run_traced(cfg, argv, env, cwd, log, stdin=None, timeout=60, stdout_path=Non
     """-> (returncode or None on timeout, stdout bytes, stderr tail, wall)
     stall: kill when the tracee has used that many CPU seconds while the strace log did not grow
     (every case writes a marker line); `timeout` is only a last-resort wall-clock cap"""
-    # strace buffers a plain -o file (progress would be invisible); output to a pipe is line-buffered
-    out = ("|cat > '%s'" % log) if stall is not None else log
-    cmd = cfg["prefix"] + ["-o", out, "-e", "trace=" + cfg["trace"], "--"] + argv
+    cmd = cfg["prefix"] + ["-o", log, "-e", "trace=" + cfg["trace"], "--"] + argv
     t0 = time.time()
+    _KIDS.clear()                          # pids are recycled quickly on a busy machine
     out_f = open(stdout_path, "wb") if stdout_path else subprocess.PIPE
     p = subprocess.Popen(cmd, env=env, cwd=cwd, stdin=subprocess.PIPE if stdin is not None else subprocess.DEVNULL,
                          stdout=out_f, stderr=subprocess.PIPE, preexec_fn=_pre)
@@ -448,6 +449,8 @@ def run_phase_shard(task):
                 if rid not in control_ids and len(res["samples"]) < 3:
                     res["samples"].append({"program": by_id[rid]["prog"], "case": by_id[rid]["meta"][k] if k >= 0 else None,
                                            "tz": tz, "syscalls_in_phase": evs})
+        if res["rounds"] == 1 and a["markers"] == 0 and task.get("_retry", 0) < 2:
+            return run_phase_shard(dict(task, _retry=task.get("_retry", 0) + 1))
         if res["rounds"] == 1 and a["markers"] == 0:
             res["broken"] = "no marker syscall found in %s.log (rc=%s, stderr=%s, watchdog=%s)" % (
                 base, rc, se[-200:], run_traced.last_kill)
@@ -569,7 +572,7 @@ def run_cli_case(task):
         env["LOG"] = "off"
     stdin = bytes.fromhex(case["stdin_hex"]) if case.get("stdin_hex") is not None else None
     rc, so, se, wall = run_traced(cfg, [task["jaq"]] + case["argv"], env, os.path.join(scr, "cwd"), log, stdin=stdin,
-                                  timeout=case.get("timeout", 20))
+                                  timeout=case.get("timeout", 180))
     case = dict(case, cwd=os.path.join(scr, "cwd"))
     a = analyse_cli_log(log, case, task["noise"], learn=task.get("learn", False))
     try:
